@@ -7,8 +7,10 @@ the C07 header sums), a unified stream starts every step with SEQNUM (C08.seq). 
 byte-for-byte preservation and the crash clause (any truncation reads back or raises) - those quantify
 over crash points.
 """
+import re
+
 from verif import core
-from verif.tree import walk, walk_fn, show as _show, stmt_list, meth, strip, simp
+from verif.tree import decast, walk, walk_fn, show as _show, stmt_list, meth, strip, simp
 
 
 def show(n):
@@ -154,4 +156,131 @@ def run(chk):
     chk.instance(r_seq, "ctor", sample=seqs)
     if not ok:
         chk.violation(r_seq, "ctor", "the unified branch of the Restart constructor does %s; it must reopen at the step and write SEQNUM(step) first" % seqs, c["file"], c["l"])
+    # ---- C08.index: report step -> [first, last) array index of a unified restart file
+    r_ix = chk.rule("C08.index", "ERst::initUnified partitions the arrays of a unified restart file into half-open ranges: the k-th SEQNUM starts range k (its array index and its report number are recorded in the same branch), range k ends where range k+1 starts and the last one at the number of arrays, the range is stored under the k-th report number; every loop over a range runs first <= i < second", floor=6)
+    iu = fx.fn1("Opm::EclIO::ERst::initUnified")
+
+    def sub2(n):
+        n = strip(n)
+        if n.get("k") == "Idx":
+            return strip(n["c"][0]), strip(n["c"][1])
+        if n.get("k") == "OpCall" and n.get("op") == "[]" and len(n.get("a") or []) == 2:
+            return strip(n["a"][0]), strip(n["a"][1])
+        return None
+
+    def nm(e):
+        e = strip(e)
+        return e.get("n") if e.get("k") in ("Ref", "Mem") else None
+    loops = [n for n in stmt_list(iu["body"]) if n["k"] == "For"]
+    F = Sq = names = None
+    for lp in loops:
+        lv = [v["n"] for d in walk(lp.get("init") or {}) if d["k"] == "Decl" for v in d["vars"]]
+        for iff in walk(lp["body"]):
+            if iff["k"] == "If" and '== "SEQNUM"' in show(iff["cond"]).replace("std::basic_string<char>{", ""):
+                sb = [x for x in walk(iff["cond"]) if sub2(x)]
+                names = nm(sub2(sb[0])[0]) if sb else None
+                for st in stmt_list(iff["then"]):
+                    m_, o_ = meth(st)
+                    if m_ == "push_back" and o_ is not None and st.get("a"):
+                        a0 = strip(st["a"][0])
+                        if a0.get("k") == "Ref" and lv and a0["n"] == lv[0]:
+                            F = nm(o_)
+                        elif sub2(a0) and strip(sub2(a0)[1]).get("k") == "Int" and strip(sub2(a0)[1])["v"] == 0:
+                            Sq = nm(o_)
+    chk.instance(r_ix, "collect", sample=dict(start_indices=F, report_numbers=Sq, array_names=names))
+    if not (F and Sq and names):
+        chk.violation(r_ix, "collect", "ERst::initUnified no longer records, in the branch that recognises a SEQNUM array, both its array index and its report number (found index list %s, number list %s)" % (F, Sq), iu["file"], iu["l"])
+    else:
+        rl = [lp for lp in loops if any(x.get("k") == "Mem" and x.get("n") == "arrIndexRange" for x in walk(lp["body"]))]
+        if len(rl) > 1:
+            raise core.AnalysisBroken("initUnified: more than one loop fills arrIndexRange")
+        if not rl:
+            chk.violation(r_ix, "ranges", "ERst::initUnified no longer stores a range of array indices for the report steps it found (no loop assigns arrIndexRange[...]): no report step of a unified file can be located", iu["file"], iu["l"])
+        lp = rl[0] if rl else None
+    if F and Sq and names and lp is not None:
+        lv = [v["n"] for d in walk(lp.get("init") or {}) if d["k"] == "Decl" for v in d["vars"]][0]
+        bound = show(decast(lp["cond"])).replace(" ", "")
+        first = second_next = second_end = store = None
+        for n in walk(lp["body"]):
+            if n["k"] == "Bin" and n.get("asg") and n.get("op") == "=" and strip(n["c"][0]).get("k") == "Mem":
+                fld = strip(n["c"][0])["n"]
+                rhs = decast(n["c"][1])
+                if fld == "first":
+                    first = show(rhs)
+                elif fld == "second":
+                    t = show(rhs).replace(" ", "")
+                    if t == "this.%s.size()" % names:
+                        second_end = n
+                    else:
+                        second_next = (t, n)
+            if n["k"] in ("OpCall", "Bin") and n.get("op") == "=" and sub2((n.get("a") or n.get("c"))[0]):
+                b_, i_ = sub2((n.get("a") or n.get("c"))[0])
+                if nm(b_) == "arrIndexRange":
+                    store = show(decast(i_)).replace(" ", "")
+        iffs = [n for n in walk(lp["body"]) if n["k"] == "If" and n.get("else") is not None]
+        cond = show(decast(iffs[0]["cond"])).replace(" ", "") if iffs else None
+        ok_cond = False
+        if iffs and second_next and second_end is not None:
+            in_then_next = any(x is second_next[1] for x in walk(iffs[0]["then"]))
+            ne = cond in ("(%s!=(this.%s.size()-1))" % (lv, Sq), "((this.%s.size()-1)!=%s)" % (Sq, lv), "((%s+1)<this.%s.size())" % (lv, Sq), "((%s+1)!=this.%s.size())" % (lv, Sq))
+            eq = cond in ("(%s==(this.%s.size()-1))" % (lv, Sq), "((this.%s.size()-1)==%s)" % (Sq, lv), "((%s+1)==this.%s.size())" % (lv, Sq))
+            ok_cond = (ne and in_then_next) or (eq and not in_then_next)
+        sample = dict(loop=bound, first=first, next=second_next[0] if second_next else None, last=show(second_end)[:60] if second_end is not None else None, last_test=cond, stored_under=store)
+        chk.instance(r_ix, "ranges", sample=sample)
+        okr = bound == "(%s<this.%s.size())" % (lv, Sq) and first == "%s[%s]" % (F, lv) and second_next and second_next[0] == "%s[(%s+1)]" % (F, lv) and ok_cond and store == "this.%s[%s]" % (Sq, lv)
+        if not okr:
+            chk.violation(r_ix, "ranges", "ERst::initUnified builds the report-step ranges as %s; range k must be [start(k), start(k+1)) - the last one up to the number of arrays - for every k, stored under report number k: otherwise a step reads arrays of its neighbour or loses its own" % sample, iu["file"], lp["l"])
+    # half-open use
+    n_use = 0
+    for f in fx.fns:
+        if f.get("cls") != "Opm::EclIO::ERst" or not f.get("body"):
+            continue
+        for lp in walk(f["body"]):
+            if lp["k"] != "For" or not isinstance(lp.get("cond"), dict):
+                continue
+            c = strip(lp["cond"])
+            txt = show(decast(c)).replace(" ", "")
+            if not re.search(r"(\.second\b|std::get\(\w+\))", txt) or c.get("k") != "Bin":
+                continue
+            ini = show(decast(lp.get("init"))) if lp.get("init") else ""
+            if not re.search(r"(\.first\b|std::get\()", ini):
+                continue
+            n_use += 1
+            key = "use:%s@%s" % (f["n"], n_use)
+            chk.instance(r_ix, key, sample=dict(function=f["q"], init=ini[:60], cond=txt[:60]))
+            if c.get("op") != "<":
+                chk.violation(r_ix, key, "%s walks a report step's arrays with `%s`: the range is half-open, first <= i < second; with %s the first array of the next step is taken as part of this one" % (f["q"], txt, c.get("op")), f["file"], lp["l"])
+
+    # ---- the record framing the unformatted reader relies on (rules of C07, run here because a cut-short file must raise, not
+    # yield wrong data): head/tail markers, payload, byte order
+    class Only:
+        def __init__(self, chk_, allow):
+            self.__dict__["c"] = chk_
+            self.__dict__["allow"] = allow
+
+        def __getattr__(self, k):
+            return getattr(self.c, k)
+
+        def __setattr__(self, k, v):
+            setattr(self.c, k, v)
+
+        def rule(self, rid, desc, floor=0):
+            if rid in self.allow:
+                return self.c.rule(rid, desc, floor)
+            return rid
+
+        def instance(self, rid, *a, **kw):
+            if rid in self.allow:
+                self.c.instance(rid, *a, **kw)
+
+        def violation(self, rid, *a, **kw):
+            if rid in self.allow:
+                self.c.violation(rid, *a, **kw)
+
+        def info(self, rid, *a, **kw):
+            if rid in self.allow:
+                self.c.info(rid, *a, **kw)
+    import rules.C07 as c07
+    c07.run(Only(chk, {"C07.bracket", "C07.payload", "C07.hdr", "C07.flip"}))
+
     chk.assumptions += ["header widths are joined with the writer via rules/C07.header_sums (T-agree between modules)"]
